@@ -33,6 +33,13 @@ func (r *Rand) Intn(n int) int {
 	return int(r.Uint64() % uint64(n))
 }
 
+func (r *Rand) Int63n(n int64) int64 {
+	if n <= 1 {
+		return 0
+	}
+	return int64(r.Uint64() % uint64(n))
+}
+
 func (r *Rand) Range(lo, hi int) int { return lo + r.Intn(hi-lo+1) }
 func (r *Rand) Chance(num, den int) bool { return r.Intn(den) < num }
 func (r *Rand) Float() float64       { return float64(r.Uint64()>>11) / (1 << 53) }
